@@ -1,7 +1,15 @@
+import HeraProofs.Props.C07
 import HeraProofs.Props.C10
 import HeraProofs.Props.C16
 import HeraProofs.Props.C09
 open Hera
+#print axioms C07_lexer_terminates
+#print axioms C07_token_progress
+#print axioms tokenAt_eof
+#print axioms skip_le
+#print axioms readBody_rest_lt
+#print axioms readCharBody_rest_lt
+#print axioms lexGo_ends
 #print axioms C10_read_range
 #print axioms C16_ifdef
 #print axioms C09_op_iff
